@@ -15,7 +15,11 @@
 #define RB_INIT_CMAX 64
 #endif
 
-#define RB_H(s) RB_CAT(h_, RB_CAT(RB_N, s))
+/* pasted in one step: the intermediate token <inst>_<fn> must not appear,
+ * the native replay driver #defines it to its checking wrapper */
+#define RB_CAT3_(a, b, c) a##b##c
+#define RB_CAT3(a, b, c) RB_CAT3_(a, b, c)
+#define RB_H(s) RB_CAT3(h_, RB_N, s)
 /* IN() pastes the type name: expand RB_T first */
 #define RB_IN(type, name) IN(type, name)
 
